@@ -14,7 +14,9 @@ cleanup() { git -C /repo worktree remove --force "$WT" >/dev/null 2>&1; git -C /
 cd "$WT"
 if ! git apply "$SRC/patch.diff" >>"$LOG" 2>&1; then echo "RESULT $P-$V: patch does not apply to current HEAD"; cleanup; exit 1; fi
 if ! make -j16 >>"$LOG" 2>&1; then echo "RESULT $P-$V: build fails"; cleanup; exit 1; fi
-make -C test check -j8 >"$LOG.suite" 2>&1
+timeout 2400 make -C test check -j8 >"$LOG.suite" 2>&1
+# a test that hangs with the change: stop what the timeout left behind (only processes of this worktree)
+pkill -9 -f "$WT/test/" >/dev/null 2>&1
 PASS=$(grep -E "^# PASS:" "$LOG.suite" | awk '{s+=$3} END{print s+0}')
 FAIL=$(grep -E "^# (FAIL|ERROR|XPASS):" "$LOG.suite" | awk '{s+=$3} END{print s+0}')
 echo "suite with change: pass=$PASS fail=$FAIL" | tee -a "$LOG"
